@@ -291,8 +291,12 @@ func (s *Store) Close() error {
 
 	cerr := s.Err()
 
-	err := s.index.Close()
+	// Primary data must reach disk before the index records that name it.
+	_, err := s.index.Primary.Flush()
 	if err != nil {
+		cerr = err
+	}
+	if err = s.index.Close(); err != nil {
 		cerr = err
 	}
 	if err = s.index.Primary.Close(); err != nil {
